@@ -58,8 +58,8 @@ namespace ratio
     std::vector<expr> get_instances() const noexcept { return instances; } // returns the instances of this type..
 
   protected:
-    CORE_EXPORT static void new_supertypes(type &t, const std::vector<type *> &sts) noexcept;
-    CORE_EXPORT void new_supertypes(const std::vector<type *> &sts) noexcept;
+    CORE_EXPORT static void new_supertypes(type &t, const std::vector<type *> &sts);
+    CORE_EXPORT void new_supertypes(const std::vector<type *> &sts);
     CORE_EXPORT void new_constructors(const std::vector<constructor *> &cs) noexcept;
     void new_methods(const std::vector<method *> &ms) noexcept;
     void new_types(const std::vector<type *> &ts) noexcept;
